@@ -749,8 +749,19 @@ func (x *Exec) checkClosure(fr *Frame, st *State, cl Closure, cb *FuncSpec, call
 			penv.vars[k] = v
 		}
 		x.bindResults(penv, cval, resultNames(fn.Signature))
-		for _, c := range ens {
-			p := x.evalBool(penv, c.Expr)
+		// clauses of the passing function may also name its own locals - in particular the variables the
+		// closure captures, read in the state the closure leaves behind (old(): the state it found)
+		lenv := x.newEnv(fr, cout, x.curBlock)
+		lenv.old = nf.preSt
+		for k, v := range penv.vars {
+			lenv.vars[k] = v
+		}
+		for ci, c := range ens {
+			ev := penv
+			if ci >= len(cb.Ensures) {
+				ev = lenv
+			}
+			p := x.evalBool(ev, c.Expr)
 			o := &Obligation{Name: fmt.Sprintf("%s/%scb:%s/ensures:%s", x.topKey, fr.prefix, key, c.Label), Kind: "ensures", Guard: cout.Reach, Prop: p,
 				Pos: x.pos(pos), Src: c.Src, FnName: x.topKey, Inputs: x.inputs}
 			o.Props = append(append([]string{}, c.Props...), x.defProps...)
